@@ -59,7 +59,7 @@ func (g *Gen) verifyClosure(b *Block) {
 			r := g.freshName("box$" + v.Name())
 			st.declare(r, sInt)
 			u.defs = append(u.defs, app(">", r, "0"), app("not", app("fresh$", r)))
-			g.Pre.add("(declare-fun fresh$ (Int) Bool)")
+			g.Pre.addFresh()
 			loc := &Loc{Kind: "heap", Name: "B$" + sanitize(e.sortOf(v.Type())), Ref: r, T: v.Type()}
 			if _, isStruct := v.Type().Underlying().(*types.Struct); isStruct {
 				loc = &Loc{Kind: "heap", Name: e.heapName(v.Type()), Ref: r, T: v.Type()}
